@@ -225,10 +225,79 @@ Definition skip_h : handler := fun _ _ r => skip r.
 Definition err_elem (self : name) (r : list token) := run_loop skip_h self r.
 Definition tls_elem (self : name) (r : list token) := run_loop skip_h self r.
 
+(* copyValue for int fields of [bits] bits (int8: presence priority; *int: result sets):
+   empty character data => 0, else ParseInt(TrimSpace(v), 10, bits): optional sign, at least
+   one digit, -2^(bits-1) <= value < 2^(bits-1) *)
+Definition int_ok (bits : N) (s : str) : bool :=
+  match s with
+  | [] => true
+  | _ =>
+      match trim s with
+      | 43 :: r => negb (is_nil r) && all_digits r && (dec_val r <? 2 ^ (bits - 1))
+      | 45 :: r => negb (is_nil r) && all_digits r && (dec_val r <=? 2 ^ (bits - 1))
+      | t => negb (is_nil t) && all_digits t && (dec_val t <? 2 ^ (bits - 1))
+      end
+  end.
+
+(* the character data a scalar field is decoded from: the text tokens (CharData, CDATA) that
+   are DIRECT content of the element, concatenated; nested elements are skipped *)
+Fixpoint direct_text (depth : nat) (ts : list token) : str :=
+  match ts with
+  | [] => []
+  | TStart _ _ :: r => direct_text (S depth) r
+  | TEnd _ :: r => direct_text (pred depth) r
+  | TText s :: r => match depth with O => s ++ direct_text depth r | S _ => direct_text depth r end
+  | TMisc :: r => direct_text depth r
+  end.
+
+(* direct child elements of a content token list, each with its own content *)
+Fixpoint direct_elems (fuel : nat) (ts : list token) : list (name * list attr * list token) :=
+  match fuel with
+  | O => []
+  | S f =>
+      match ts with
+      | [] => []
+      | TStart n a :: r =>
+          match take_subtree r with
+          | Some (inner, r') => (n, a, inner) :: direct_elems f r'
+          | None => []
+          end
+      | _ :: r => direct_elems f r
+      end
+  end.
+Definition children_of (ts : list token) := direct_elems (S (List.length ts)) ts.
+
+(* ResultSet (XEP-0059, results_sets.go): count / index / max are *int elements, first has an
+   *int attribute index; encoding/xml matches these tags by local name in any namespace *)
+Definition ns_rsm := bytes_of "http://jabber.org/protocol/rsm".
+Definition rsm_set_name : name := (ns_rsm, bytes_of "set").
+Definition rsm_set_ok (inner : list token) : bool :=
+  forallb (fun c : name * list attr * list token =>
+             let '(n, a, ci) := c in
+             if mem (snd n) (map bytes_of ["count"; "index"; "max"]%string)
+             then int_ok 64 (direct_text 0 ci)
+             else if str_eqb (snd n) (bytes_of "first")
+             then forallb (fun x : attr =>
+                             if str_eqb (snd (fst x)) (bytes_of "index") then int_ok 64 (snd x)
+                             else true) a
+             else true)
+          (children_of inner).
+(* every direct child <set xmlns='http://jabber.org/protocol/rsm'> of a payload converts *)
+Definition rsm_ok (inner : list token) : bool :=
+  forallb (fun c : name * list attr * list token =>
+             let '(n, _, ci) := c in if name_eqb n rsm_set_name then rsm_set_ok ci else true)
+          (children_of inner).
+
 Section Parser.
 (* Generated.registry: (kind, namespace, local, Go type) as TypeRegistry holds it after init *)
 Variable reg : list (Z * str * str * str).
 Variable repaired : bool.
+(* [typed_ok ctx n a inner]: DecodeElement of the element (n, a, content inner) into the Go
+   struct it is decoded into succeeds, i.e. every typed field converts.  ctx = Some k: a child
+   of a stanza of kind k that the registry maps to a type; ctx = None: a child of
+   <stream:features/>.  A PARAMETER of the model and of the theorems; the instance compared
+   with the code is [go_typed_ok] below. *)
+Variable typed_ok : option kind -> name -> list attr -> list token -> bool.
 
 Definition reg_has (k : kind) (ns local : str) : bool :=
   existsb (fun e : Z * str * str * str =>
@@ -266,24 +335,16 @@ Definition muc_ok (inner : list token) : bool :=
              if name_eqb (fst c) history_name then history_ok (snd c) else true)
           (direct_starts 0 inner).
 
-(* "the registered child is well-typed for its Go struct": content on which DecodeElement
-   into the registered type fails.  Only the MUC history conversions are modelled
-   (PubSubEvent / PubSubOwner skip unknown children since ac3889a, Command decodes an <x/>
-   outside jabber:x:data as a generic Node since beca765: they consume their element exactly); for every other registered type the model says "decodes" - an assumption about those types that
-   the correspondence run validates for the (valid) contents the generator produces. *)
-Definition ext_ok (k : kind) (n : name) (a : list attr) (inner : list token) : bool :=
-  match k with
-  | KPresence => if name_eqb n muc_x_name then muc_ok inner else true
-  | _ => true
-  end.
-
-(* DecodeElement(ext, &tt) for a registered extension *)
+(* DecodeElement(ext, &tt) for a registered extension: the typed fields must convert
+   ([typed_ok]); Delegation additionally runs the Forwarded loops *)
 Definition ext_elem (k : kind) : handler := fun n a r =>
-  if name_eqb n delegation_name then deleg_elem n r
-  else match take_subtree r with
-       | Some (inner, r') => if ext_ok k n a inner then Some r' else None
-       | None => None
-       end.
+  match take_subtree r with
+  | Some (inner, r') =>
+      if typed_ok (Some k) n a inner
+      then (if name_eqb n delegation_name then deleg_elem n r else Some r')
+      else None
+  | None => None
+  end.
 
 Definition known_child (k : kind) (local : str) : bool :=
   match k with
@@ -296,22 +357,33 @@ Definition known_child (k : kind) (local : str) : bool :=
 (* [sns]: the namespace of the stanza itself (start.Name.Space): body, subject, thread,
    error / show, status, priority are recognised only in that namespace; the same local
    name in another namespace is an unknown extension. *)
+Definition is_priority (sns : str) (k : kind) (n : name) : bool :=
+  match k with KPresence => str_eqb (fst n) sns && str_eqb (snd n) s_priority | _ => false end.
+
+(* <priority/> is decoded into an int8: DecodeElement(&pres.Priority, &tt) fails, and with it
+   the whole presence, when the element's character data does not convert *)
 Definition stanza_child (sns : str) (k : kind) : handler := fun n a r =>
   if registered k n then ext_elem k n a r
   else if str_eqb (fst n) sns && known_child k (snd n) then
-    (if str_eqb (snd n) s_error then err_elem n r else skip r)
+    (if str_eqb (snd n) s_error then err_elem n r
+     else if is_priority sns k n then
+       match take_subtree r with
+       | Some (inner, r') => if int_ok 8 (direct_text 0 inner) then Some r' else None
+       | None => None
+       end
+     else skip r)
   else if repaired then skip r     (* default: err = d.Skip() *)
   else Some r.                     (* unchanged tree: nothing consumed *)
 
-(* IQ.UnmarshalXML, case xml.StartElement: "error" (any namespace) first, then the
-   registry, else a generic Node *)
-Definition iq_child : handler := fun n a r =>
-  if str_eqb (snd n) s_error then err_elem n r
+(* IQ.UnmarshalXML, case xml.StartElement: <error/> in the IQ's own namespace first, then
+   the registry, else a generic Node *)
+Definition iq_child (sns : str) : handler := fun n a r =>
+  if str_eqb (snd n) s_error && str_eqb (fst n) sns then err_elem n r
   else if registered KIQ n then ext_elem KIQ n a r
   else skip r.
 
 Definition child_of (sns : str) (k : kind) : handler :=
-  match k with KIQ => iq_child | _ => stanza_child sns k end.
+  match k with KIQ => iq_child sns | _ => stanza_child sns k end.
 
 (* SMFailed.UnmarshalXML (after 92db6e3 and the D23 repair): a child outside the namespace
    urn:ietf:params:xml:ns:xmpp-stanzas is skipped whatever its name; inside it, a listed
@@ -321,9 +393,14 @@ Definition failed_child : handler := fun n _ r =>
   if str_eqb (fst n) ns_stanzas && mem (snd n) sm_conditions then skip r   (* DecodeElement *)
   else skip r.                                                            (* d.Skip() *)
 
-(* StreamFeatures (tag-driven): the starttls child runs TlsStartTLS.UnmarshalXML *)
-Definition features_child : handler := fun n _ r =>
-  if name_eqb n starttls_name then tls_elem n r else skip r.
+(* StreamFeatures (tag-driven): the starttls child runs TlsStartTLS.UnmarshalXML; every other
+   child is decoded into its field's struct (bind and session carry a result set) or skipped *)
+Definition features_child : handler := fun n a r =>
+  if name_eqb n starttls_name then tls_elem n r
+  else match take_subtree r with
+       | Some (inner, r') => if typed_ok None n a inner then Some r' else None
+       | None => None
+       end.
 
 (* ---- NextXmppToken: next start element, or the stream's end element ---- *)
 Fixpoint next_token (ts : list token) : option (token * list token) :=
@@ -447,14 +524,21 @@ Definition pkts_of (items : list node) : list result :=
                      end) items.
 
 (* hypotheses on a top-level element's content.  Children are ARBITRARY trees except:
-   - a child of a stanza that the registry maps to a Go type must be well-typed for that
-     type ([ext_ok]; D18),
+   - a child of a stanza that the registry maps to a Go type, and a child of
+     <stream:features/>, must be well-typed for its Go struct ([typed_ok]; D18),
+   - an own-namespace <priority/> of a presence must convert to int8,
    and the element's own uint-typed attribute (h, max) must convert. *)
-Definition child_ok (tk : top_kind) (c : node) : bool :=
+(* [sns]: the namespace of the top-level element itself *)
+Definition child_ok (sns : str) (tk : top_kind) (c : node) : bool :=
   match c with
   | NElem n a cs =>
       match tk with
-      | TKStanza k => if registered k n then ext_ok k n a (flatten_all cs) else true
+      | TKStanza k =>
+          if registered k n then typed_ok (Some k) n a (flatten_all cs)
+          else if is_priority sns k n then int_ok 8 (direct_text 0 (flatten_all cs))
+          else true
+      | TKFeatures =>
+          if name_eqb n starttls_name then true else typed_ok None n a (flatten_all cs)
       | _ => true
       end
   | _ => true
@@ -464,10 +548,32 @@ Definition top_ok (x : node) : bool :=
   match x with
   | NElem n a cs =>
       match classify n with
-      | inl tk => own_attrs_ok tk a && forallb (child_ok tk) cs
+      | inl tk => own_attrs_ok tk a && forallb (child_ok (fst n) tk) cs
       | inr _ => false
       end
   | _ => true      (* white space, comments, processing instructions between elements *)
   end.
 
 End Parser.
+
+(* ---- the instance of [typed_ok] that is compared with the code ---- *)
+(* What is modelled of "every typed field converts":
+   - presence: MucPresence's <history/> attribute conversions (muc_ok);
+   - iq: every registered payload type (disco#info, disco#items, roster, version, pubsub,
+     pubsub#owner, command, bind, session, delegation, iot control) carries a ResultSet:
+     rsm_ok;
+   - message: Delegation carries a ResultSet: rsm_ok;
+   - <stream:features/>: the bind and session children carry a ResultSet: rsm_ok.
+   NOT modelled (the model says "converts"; the generator produces valid values only):
+   the other typed fields of registered payloads - pubsub max_items (int) and notify (bool)
+   attributes, pubsub subscribe-options / form contents, PEP tune length / rating, iot
+   control values, HTML content. *)
+Definition bind_name : name := (ns_bind, bytes_of "bind").
+Definition session_name : name := (ns_session, bytes_of "session").
+Definition go_typed_ok (ctx : option kind) (n : name) (a : list attr) (inner : list token) : bool :=
+  match ctx with
+  | Some KPresence => if name_eqb n muc_x_name then muc_ok inner else true
+  | Some KIQ => rsm_ok inner
+  | Some KMessage => if name_eqb n delegation_name then rsm_ok inner else true
+  | None => if name_eqb n bind_name || name_eqb n session_name then rsm_ok inner else true
+  end.
